@@ -5,14 +5,14 @@ CONSTANTS
   MaxFrameOps = 2
   MaxDepth = 3
   DepthLimit = 1024
-  TopKinds = {"call", "create"}
+  TopKinds = {"call"}
   TopGas <- DepthTopGas
   TopValues = {1}
-  LeafOps = {"work", "sstore", "log", "xfer", "tokxfer", "selfdestruct", "return", "revert", "invalid", "loop"}
+  LeafOps = {"sstore", "log", "xfer", "tokxfer", "selfdestruct", "return", "revert", "invalid"}
   CallKinds = {"call", "callcode", "delegate", "static"}
-  CallValues = {0, 1, 9}
+  CallValues = {0, 1}
   CallReqs <- QuickCallReqs
-  CreateValues = {0, 1}
+  CreateValues = {1}
 INVARIANTS TypeOK GasNeverGrows Conservation FinalState
 PROPERTIES FrameAtomic ValueStaysWithCaller
 ACTION_CONSTRAINT Edge
